@@ -1041,7 +1041,14 @@ void destruct_object (object_t * ob) {
         }
 
       if (otmp == ob->contains) /* not moved elsewhere ... see move_or_destruct() apply */
-        destruct_object (otmp);
+        {
+          destruct_object (otmp);
+
+          /* The hooks run by that nested destruct can move us into the inventory that
+           * is going down and so get us destructed as well: do not finish a second time. */
+          if (ob->flags & O_DESTRUCTED)
+            return;
+        }
     }
 
 #ifdef OLD_ED
